@@ -305,8 +305,10 @@ def run(rep, tier, rng):
     n_uid = 6 if thorough else 2
     for v in versions1 + SPEC_V2_VERSIONS:
         for sec in SPEC_SECURITY + [None]:
-            for _ in range(n_uid):
+            for k_uid in range(n_uid + 1):
                 old, new = rng.choice([None, "NONE", rand_uid(rng)]), rng.choice([None, rand_uid(rng), rand_uid(rng, 36)])
+                if k_uid == n_uid:          # every character class of the UID alphabet, always
+                    old, new = rng.choice(["a_b", "_", "A-b_9", "-_-"]), rng.choice(["Z_9-x", "_" * 36, "0-9_a-Z"])
                 vv = rng.choice([v, str(v)])
                 case = ("make", vv, sec, old, new)
                 cases.append(case)
@@ -485,7 +487,9 @@ def malformed_texts(rng, n):
 
 
 def xml_lines(rng, n):
-    out = [("xml", XML_DECL), ("xml", XML_DECL + "\r\n"), ("xml", "<?xml?>"), ("xml", "<?xml ?>"), ("xml", " " + XML_DECL), ("xml", "<?xml version='1.0'?>"),
+    out = [("xml", "<?xml" + "".join(' %s=%s%s%s' % (n, q, v, q) for n, v, q in (("version", "1.0", qv), ("encoding", "UTF-8", qe), ("standalone", "no", qs)) if q) + pad + "?>")
+           for qv in ('"', "'", None) for qe in ('"', "'", None) for qs in ('"', "'", None) for pad in ("", " ")]
+    out += [("xml", XML_DECL), ("xml", XML_DECL + "\r\n"), ("xml", "<?xml?>"), ("xml", "<?xml ?>"), ("xml", " " + XML_DECL), ("xml", "<?xml version='1.0'?>"),
            ("xml", "<?xml version='1.0\"?>"), ("xml", "<?xml encoding=\"UTF-8\" version=\"1.0\"?>"), ("xml", "<?xml version=\"1.0\"encoding=\"UTF-8\"standalone=\"no\"?>")]
     parts = ["<?xml", " ", "\n", "version=", "encoding=", "standalone=", "\"", "'", "1.0", "1", ".", "UTF-8", "no", "yes", "?>", "?", ">", "<?OFX", "x", "٣", "é", "\xa0", "-"]
     for _ in range(n):
